@@ -1,5 +1,815 @@
 package main
 
-func (e *Exec) doSerial(c *Call, ev *Event, targets *[]int) bool { return false }
+// Serialization family (C05, C06, C13, C08, C10): independent parsers/encoders of the portable and the
+// frozen format (written from the published layouts; they share no code with the library), byte-source
+// doubles, and the executor ops that log field-level observations for RoaringSerial.tla.
+
+import (
+	"bytes"
+	"encoding/base64"
+	"encoding/binary"
+	"errors"
+	"fmt"
+	"io"
+	"math/rand"
+
+	"github.com/RoaringBitmap/roaring/v2"
+)
+
+// ---------------------------------------------------------------- portable format: independent parser
+
+type PChunk struct {
+	K    int  `json:"k"`    // key
+	Card int  `json:"card"` // descriptive header value + 1
+	T    int  `json:"t"`    // payload kind as the format prescribes: 0 array, 1 bitmap, 2 run
+	NR   int  `json:"nr"`   // number of runs (run payload) else 0
+	Off  int  `json:"off"`  // offset header entry, -1 when there is no offset header
+	Pos  int  `json:"pos"`  // byte position where the payload actually starts
+	N    int  `json:"n"`    // number of elements decoded from the payload
+	V    bool `json:"v"`    // payload well ordered (array strictly increasing; runs sorted, disjoint, within the chunk)
+	Adj  bool `json:"adj"`  // run payload has adjacent (non-maximal) runs
+}
+
+type PFields struct {
+	OK     bool     `json:"ok"`     // the stream parsed to its end without running out of bytes
+	Cookie int      `json:"cookie"` // 12346 | 12347
+	N      int      `json:"n"`      // number of chunks
+	HasOff bool     `json:"hasoff"`
+	Ch     []PChunk `json:"ch"`
+	End    int      `json:"end"` // position after the last payload
+	Err    string   `json:"err"`
+	Trunc  int      `json:"trunc"`
+}
+
+const (
+	cookieNoRun = 12346
+	cookieRun   = 12347
+)
+
+func parsePortable(b []byte) (PFields, iset) {
+	var f PFields
+	f.Ch = []PChunk{}
+	pos := 0
+	need := func(n int) bool {
+		if pos+n > len(b) {
+			f.Err = fmt.Sprintf("stream ends at %d, need %d more bytes at %d", len(b), n, pos)
+			return false
+		}
+		return true
+	}
+	if !need(4) {
+		return f, nil
+	}
+	c := binary.LittleEndian.Uint32(b)
+	var runflags []byte
+	switch {
+	case c&0xFFFF == cookieRun:
+		f.Cookie = cookieRun
+		f.N = int(c>>16) + 1
+		pos = 4
+		nb := (f.N + 7) / 8
+		if !need(nb) {
+			return f, nil
+		}
+		runflags = b[pos : pos+nb]
+		pos += nb
+		f.HasOff = f.N >= 4
+	case c == cookieNoRun:
+		f.Cookie = cookieNoRun
+		pos = 4
+		if !need(4) {
+			return f, nil
+		}
+		f.N = int(binary.LittleEndian.Uint32(b[pos:]))
+		pos += 4
+		f.HasOff = true
+		if f.N > 65536 {
+			f.Err = "more than 65536 chunks"
+			return f, nil
+		}
+	default:
+		f.Err = fmt.Sprintf("unknown cookie %d", c)
+		return f, nil
+	}
+	if !need(4 * f.N) {
+		return f, nil
+	}
+	desc := b[pos : pos+4*f.N]
+	pos += 4 * f.N
+	var offs []byte
+	if f.HasOff {
+		if !need(4 * f.N) {
+			return f, nil
+		}
+		offs = b[pos : pos+4*f.N]
+		pos += 4 * f.N
+	}
+	var spans []span
+	for i := 0; i < f.N; i++ {
+		ch := PChunk{K: int(binary.LittleEndian.Uint16(desc[4*i:])), Card: int(binary.LittleEndian.Uint16(desc[4*i+2:])) + 1, Off: -1, Pos: pos, V: true}
+		if offs != nil {
+			ch.Off = int(binary.LittleEndian.Uint32(offs[4*i:]))
+		}
+		base := uint64(ch.K) << 16
+		isRun := runflags != nil && runflags[i/8]&(1<<(uint(i)%8)) != 0
+		switch {
+		case isRun:
+			ch.T = 2
+			if !need(2) {
+				return f, nil
+			}
+			ch.NR = int(binary.LittleEndian.Uint16(b[pos:]))
+			pos += 2
+			if !need(4 * ch.NR) {
+				return f, nil
+			}
+			prevEnd := -1
+			for r := 0; r < ch.NR; r++ {
+				st := int(binary.LittleEndian.Uint16(b[pos+4*r:]))
+				ln := int(binary.LittleEndian.Uint16(b[pos+4*r+2:]))
+				if st+ln > 65535 || st <= prevEnd {
+					ch.V = false
+					if st+ln > 65535 {
+						ln = 65535 - st
+					}
+				}
+				if r > 0 && st == prevEnd+1 {
+					ch.Adj = true
+				}
+				prevEnd = st + ln
+				ch.N += ln + 1
+				spans = append(spans, span{base + uint64(st), base + uint64(st+ln)})
+			}
+			pos += 4 * ch.NR
+		case ch.Card > 4096:
+			ch.T = 1
+			if !need(8192) {
+				return f, nil
+			}
+			words := make([]uint64, 1024)
+			for w := range words {
+				words[w] = binary.LittleEndian.Uint64(b[pos+8*w:])
+			}
+			for _, sp := range decodeDense(words) {
+				ch.N += int(sp.hi-sp.lo) + 1
+				spans = append(spans, span{base + sp.lo, base + sp.hi})
+			}
+			pos += 8192
+		default:
+			ch.T = 0
+			if !need(2 * ch.Card) {
+				return f, nil
+			}
+			prev := -1
+			for j := 0; j < ch.Card; j++ {
+				v := int(binary.LittleEndian.Uint16(b[pos+2*j:]))
+				if v <= prev {
+					ch.V = false
+				}
+				prev = v
+				spans = append(spans, span{base + uint64(v), base + uint64(v)})
+			}
+			ch.N = ch.Card
+			pos += 2 * ch.Card
+		}
+		f.Ch = append(f.Ch, ch)
+	}
+	f.End = pos
+	f.OK = true
+	return f, normalize(spans)
+}
+
+func truncFields(f PFields) PFields {
+	if len(f.Ch) > 2*repChunkCap {
+		f.Trunc = len(f.Ch)
+		f.Ch = append(append([]PChunk{}, f.Ch[:repChunkCap]...), f.Ch[len(f.Ch)-repChunkCap:]...)
+	}
+	return f
+}
+
+// ---------------------------------------------------------------- portable format: independent encoder
+
+// EncPolicy: the legal choices another implementation may make (C06, read direction).
+type EncPolicy struct {
+	Cookie int `json:"cookie"` // 0: run cookie only when a run chunk is written; 1: always the run-capable cookie
+	Runs   int `json:"runs"`   // 0 never; 1 every chunk as runs; 2 alternate chunks; 3 only chunks where runs are smaller
+	Gran   int `json:"gran"`   // run granularity: 0 maximal; 1 split every run in two where possible; 2 singletons (capped); 3 random splits
+}
+
+func chunksOf(s iset) (keys []uint64, parts []iset) {
+	for _, sp := range s {
+		for k := sp.lo >> 16; k <= sp.hi>>16; k++ {
+			lo, hi := k<<16, k<<16+0xFFFF
+			if sp.lo > lo {
+				lo = sp.lo
+			}
+			if sp.hi < hi {
+				hi = sp.hi
+			}
+			if len(keys) == 0 || keys[len(keys)-1] != k {
+				keys = append(keys, k)
+				parts = append(parts, nil)
+			}
+			parts[len(parts)-1] = append(parts[len(parts)-1], span{lo, hi})
+		}
+	}
+	return
+}
+
+func encodeLegal(s iset, pol EncPolicy, r *rand.Rand) []byte {
+	keys, parts := chunksOf(s)
+	n := len(keys)
+	type enc struct {
+		isRun   bool
+		card    int
+		payload []byte
+	}
+	encs := make([]enc, n)
+	anyRun := false
+	for i := range keys {
+		base := keys[i] << 16
+		card := 0
+		for _, sp := range parts[i] {
+			card += int(sp.hi-sp.lo) + 1
+		}
+		asRun := false
+		switch pol.Runs {
+		case 1:
+			asRun = true
+		case 2:
+			asRun = i%2 == 0
+		case 3:
+			sz := 8192
+			if card <= 4096 {
+				sz = 2 * card
+			}
+			asRun = 2+4*len(parts[i]) < sz
+		}
+		var p []byte
+		if asRun {
+			// choose a run partition of the chunk's elements
+			var runs [][2]int
+			for _, sp := range parts[i] {
+				st, en := int(sp.lo-base), int(sp.hi-base)
+				switch pol.Gran {
+				case 1:
+					if en > st {
+						mid := (st + en) / 2
+						runs = append(runs, [2]int{st, mid}, [2]int{mid + 1, en})
+					} else {
+						runs = append(runs, [2]int{st, en})
+					}
+				case 2:
+					if len(runs)+(en-st+1) <= 20000 {
+						for v := st; v <= en; v++ {
+							runs = append(runs, [2]int{v, v})
+						}
+					} else {
+						runs = append(runs, [2]int{st, en})
+					}
+				case 3:
+					for st <= en {
+						ln := en - st + 1
+						if ln > 1 && r.Intn(2) == 0 {
+							ln = 1 + r.Intn(ln)
+						}
+						runs = append(runs, [2]int{st, st + ln - 1})
+						st += ln
+					}
+				default:
+					runs = append(runs, [2]int{st, en})
+				}
+			}
+			if len(runs) > 65535 {
+				asRun = false
+			} else {
+				p = make([]byte, 2+4*len(runs))
+				binary.LittleEndian.PutUint16(p, uint16(len(runs)))
+				for j, rr := range runs {
+					binary.LittleEndian.PutUint16(p[2+4*j:], uint16(rr[0]))
+					binary.LittleEndian.PutUint16(p[4+4*j:], uint16(rr[1]-rr[0]))
+				}
+			}
+		}
+		if !asRun {
+			if card > 4096 {
+				p = make([]byte, 8192)
+				for _, sp := range parts[i] {
+					for v := sp.lo - base; v <= sp.hi-base; v++ {
+						p[v/8] |= 1 << (v % 8)
+					}
+				}
+			} else {
+				p = make([]byte, 0, 2*card)
+				for _, sp := range parts[i] {
+					for v := sp.lo - base; v <= sp.hi-base; v++ {
+						p = binary.LittleEndian.AppendUint16(p, uint16(v))
+					}
+				}
+			}
+		}
+		anyRun = anyRun || asRun
+		encs[i] = enc{asRun, card, p}
+	}
+	var out []byte
+	runCookie := (anyRun || pol.Cookie == 1) && n > 0 // n-1 cannot be encoded for n = 0
+	hasOff := true
+	if runCookie {
+		out = binary.LittleEndian.AppendUint32(out, uint32(cookieRun)|uint32(n-1)<<16)
+		flags := make([]byte, (n+7)/8)
+		for i, e := range encs {
+			if e.isRun {
+				flags[i/8] |= 1 << (uint(i) % 8)
+			}
+		}
+		out = append(out, flags...)
+		hasOff = n >= 4
+	} else {
+		out = binary.LittleEndian.AppendUint32(out, cookieNoRun)
+		out = binary.LittleEndian.AppendUint32(out, uint32(n))
+	}
+	for i, e := range encs {
+		out = binary.LittleEndian.AppendUint16(out, uint16(keys[i]))
+		out = binary.LittleEndian.AppendUint16(out, uint16(e.card-1))
+	}
+	if hasOff {
+		off := len(out) + 4*n
+		for _, e := range encs {
+			out = binary.LittleEndian.AppendUint32(out, uint32(off))
+			off += len(e.payload)
+		}
+	}
+	for _, e := range encs {
+		out = append(out, e.payload...)
+	}
+	return out
+}
+
+// ---------------------------------------------------------------- frozen format: independent parser
+
+type FChunk struct {
+	K     int  `json:"k"`
+	T     int  `json:"t"`     // typecode: 1 bitmap, 2 array, 3 run
+	Count int  `json:"count"` // raw counts entry
+	N     int  `json:"n"`     // elements decoded
+	V     bool `json:"v"`
+}
+
+type FFields struct {
+	OK     bool     `json:"ok"`
+	Cookie int      `json:"cookie"` // low 15 bits of the trailing header
+	N      int      `json:"n"`      // chunk count (high 17 bits)
+	Ch     []FChunk `json:"ch"`
+	Len    int      `json:"len"`
+	Want   int      `json:"want"` // length implied by the tables: arenas + 5n + 4
+	Err    string   `json:"err"`
+	Trunc  int      `json:"trunc"`
+}
+
+func parseFrozen(b []byte) (FFields, iset) {
+	var f FFields
+	f.Ch = []FChunk{}
+	f.Len = len(b)
+	if len(b) < 4 {
+		f.Err = "shorter than the header"
+		return f, nil
+	}
+	h := binary.LittleEndian.Uint32(b[len(b)-4:])
+	f.Cookie = int(h & 0x7FFF)
+	f.N = int(h >> 15)
+	n := f.N
+	if len(b) < 4+5*n {
+		f.Err = "tables do not fit"
+		return f, nil
+	}
+	types := b[len(b)-4-n : len(b)-4]
+	counts := b[len(b)-4-3*n : len(b)-4-n]
+	keys := b[len(b)-4-5*n : len(b)-4-3*n]
+	nb, nr, na := 0, 0, 0
+	for i := 0; i < n; i++ {
+		c := int(binary.LittleEndian.Uint16(counts[2*i:]))
+		switch types[i] {
+		case 1:
+			nb++
+		case 2:
+			na += c + 1
+		case 3:
+			nr += c
+		default:
+			f.Err = "bad typecode"
+			return f, nil
+		}
+	}
+	f.Want = 8192*nb + 4*nr + 2*na + 5*n + 4
+	if f.Want != len(b) {
+		f.Err = "length mismatch"
+		return f, nil
+	}
+	bp, rp, ap := 0, 8192*nb, 8192*nb+4*nr
+	var spans []span
+	for i := 0; i < n; i++ {
+		k := int(binary.LittleEndian.Uint16(keys[2*i:]))
+		c := int(binary.LittleEndian.Uint16(counts[2*i:]))
+		ch := FChunk{K: k, T: int(types[i]), Count: c, V: true}
+		base := uint64(k) << 16
+		switch types[i] {
+		case 1:
+			words := make([]uint64, 1024)
+			for w := range words {
+				words[w] = binary.LittleEndian.Uint64(b[bp+8*w:])
+			}
+			bp += 8192
+			for _, sp := range decodeDense(words) {
+				ch.N += int(sp.hi-sp.lo) + 1
+				spans = append(spans, span{base + sp.lo, base + sp.hi})
+			}
+		case 2:
+			prev := -1
+			for j := 0; j <= c; j++ {
+				v := int(binary.LittleEndian.Uint16(b[ap+2*j:]))
+				if v <= prev {
+					ch.V = false
+				}
+				prev = v
+				spans = append(spans, span{base + uint64(v), base + uint64(v)})
+			}
+			ch.N = c + 1
+			ap += 2 * (c + 1)
+		case 3:
+			prevEnd := -2
+			for j := 0; j < c; j++ {
+				st := int(binary.LittleEndian.Uint16(b[rp+4*j:]))
+				ln := int(binary.LittleEndian.Uint16(b[rp+4*j+2:]))
+				if st+ln > 65535 || st <= prevEnd+1 {
+					ch.V = false
+					if st+ln > 65535 {
+						ln = 65535 - st
+					}
+				}
+				prevEnd = st + ln
+				ch.N += ln + 1
+				spans = append(spans, span{base + uint64(st), base + uint64(st+ln)})
+			}
+			rp += 4 * c
+		}
+		f.Ch = append(f.Ch, ch)
+	}
+	f.OK = true
+	return f, normalize(spans)
+}
+
+// ---------------------------------------------------------------- byte-source doubles
+
+// chunkReader delivers at most sizes[i%len] bytes per Read call.
+type chunkReader struct {
+	b     []byte
+	pos   int
+	sizes []int
+	calls int
+}
+
+func (c *chunkReader) Read(p []byte) (int, error) {
+	if c.pos >= len(c.b) {
+		return 0, io.EOF
+	}
+	n := c.sizes[c.calls%len(c.sizes)]
+	c.calls++
+	if n > len(p) {
+		n = len(p)
+	}
+	if n > len(c.b)-c.pos {
+		n = len(c.b) - c.pos
+	}
+	copy(p, c.b[c.pos:c.pos+n])
+	c.pos += n
+	return n, nil
+}
+
+var errInjected = errors.New("injected write failure")
+
+// failWriter accepts `budget` bytes in total, then fails (accepting a partial write first when partial is set).
+type failWriter struct {
+	budget  int
+	partial bool
+	written int
+}
+
+func (w *failWriter) Write(p []byte) (int, error) {
+	if len(p) <= w.budget {
+		w.budget -= len(p)
+		w.written += len(p)
+		return len(p), nil
+	}
+	n := 0
+	if w.partial {
+		n = w.budget
+	}
+	w.written += n
+	w.budget = 0
+	return n, errInjected
+}
+
+var chunkings = [][]int{{1}, {2}, {3}, {7}, {1, 2, 3, 5, 8, 13}, {4096}, {1 << 30}, {5, 1 << 30}}
+
+const sentinelLen = 16
+
+// ---------------------------------------------------------------- executor ops
+
+type SerObs struct {
+	F      PFields `json:"f"`
+	Len    Num     `json:"len"`  // bytes produced
+	Gsz    Num     `json:"gsz"`  // GetSerializedSizeInBytes
+	Ret    Num     `json:"retn"` // n returned by WriteTo (or len for the other writers)
+	Err    bool    `json:"err"`
+	Same   bool    `json:"same"` // the four writers produced identical bytes
+	Kinds  []int   `json:"kinds"` // in-memory kind of each chunk (from the raw view), for Enc
+}
+
+func (e *Exec) serialize(x int, variant int) ([]byte, int64, error) {
+	rb := e.bm(x)
+	switch variant {
+	case 1:
+		b, err := rb.ToBytes()
+		return b, int64(len(b)), err
+	case 2:
+		b, err := rb.MarshalBinary()
+		return b, int64(len(b)), err
+	case 3:
+		s, err := rb.ToBase64()
+		if err != nil {
+			return nil, 0, err
+		}
+		b, err := base64.StdEncoding.DecodeString(s)
+		return b, int64(len(b)), err
+	default:
+		var buf bytes.Buffer
+		n, err := rb.WriteTo(&buf)
+		return buf.Bytes(), n, err
+	}
+}
+
+func (e *Exec) doSerial(c *Call, ev *Event, targets *[]int) bool {
+	u := e.u
+	switch c.Op {
+	case "Ser": // write direction: bytes -> independent parser -> fields (C05 accounting, C06 Enc in Legal)
+		rb := e.bm(c.X)
+		b, n, err := e.serialize(c.X, c.V)
+		obs := SerObs{Len: numFromU64(uint64(len(b))), Gsz: numFromU64(rb.GetSerializedSizeInBytes()), Ret: numFromU64(uint64(n)), Err: err != nil, Same: true}
+		if err == nil {
+			for v := 0; v < 4; v++ {
+				b2, _, err2 := e.serialize(c.X, v)
+				if err2 != nil || !bytes.Equal(b, b2) {
+					obs.Same = false
+				}
+			}
+			f, set := parsePortable(b)
+			obs.F = truncFields(f)
+			ev.Arr = e.projArr(set, ev)
+		} else {
+			obs.F.Ch = []PChunk{}
+			ev.Arr = &[]int{}
+		}
+		obs.Kinds = []int{}
+		for i, ch := range view32(rb, nil).Chunks {
+			if i < 2*repChunkCap {
+				obs.Kinds = append(obs.Kinds, ch.T)
+			}
+		}
+		ev.Ret = obs
+		e.obs = append(e.obs, c.X)
+		return true
+	case "Load": // serialize x, read back into dst through entry point c.V (C05)
+		b, _, err := e.serialize(c.X, e.rng.Intn(4))
+		if err != nil {
+			ev.Skip = true
+			return true
+		}
+		entry := c.V % 6
+		reuse := c.W == 1
+		var nb *roaring.Bitmap
+		if reuse && !e.taint[c.Dst] {
+			nb = e.slots[c.Dst]
+		} else {
+			nb = roaring.New()
+			reuse = false
+		}
+		var n int64
+		var lerr error
+		posOK := true
+		taint := false
+		withSentinel := append(append([]byte{}, b...), bytes.Repeat([]byte{0xA5}, sentinelLen)...)
+		switch entry {
+		case 0:
+			rd := bytes.NewReader(withSentinel)
+			n, lerr = nb.ReadFrom(rd)
+			posOK = rd.Len() == sentinelLen
+		case 1:
+			rd := &chunkReader{b: withSentinel, sizes: chunkings[c.J%len(chunkings)]}
+			n, lerr = nb.ReadFrom(rd)
+			// a buffered adapter may read ahead only if the contract says so; the property demands exact consumption
+			posOK = rd.pos == len(b)
+		case 2:
+			cb := e.registerBuf(withSentinel)
+			n, lerr = nb.FromBuffer(cb.bytes)
+			taint = true
+		case 3:
+			cb := e.registerBuf(withSentinel)
+			n, lerr = nb.FromUnsafeBytes(cb.bytes)
+			taint = true
+		case 4:
+			lerr = nb.UnmarshalBinary(b)
+			n = int64(len(b))
+		case 5:
+			n, lerr = nb.FromBase64(base64.StdEncoding.EncodeToString(b))
+		}
+		ev.Ret = map[string]any{"err": lerr != nil, "n": numFromU64(uint64(n)), "len": numFromU64(uint64(len(b))), "pos": posOK, "entry": entry, "reuse": reuse}
+		if lerr == nil {
+			e.setSlot(c.Dst, nb, taint)
+		} else if reuse {
+			e.setSlot(c.Dst, roaring.New(), false) // receiver state after a failed read is unspecified
+		}
+		*targets = []int{c.Dst, c.X}
+		return true
+	case "WriteFail": // a writer failing after c.J bytes (of the c.W-th fraction) makes WriteTo return an error
+		rb := e.bm(c.X)
+		total := int(rb.GetSerializedSizeInBytes())
+		budget := 0
+		if total > 0 {
+			switch c.V % 4 {
+			case 0:
+				budget = 0
+			case 1:
+				budget = e.rng.Intn(total)
+			case 2:
+				budget = total - 1
+			case 3:
+				budget = e.rng.Intn(minInt(total, 64))
+			}
+		}
+		fw := &failWriter{budget: budget, partial: c.W == 1}
+		n, err := rb.WriteTo(fw)
+		ev.Ret = map[string]any{"err": err != nil, "nle": int(n) <= fw.written}
+		e.obs = append(e.obs, c.X)
+		return true
+	case "Freeze": // the three frozen writers, sizes, layout (C13)
+		rb := e.bm(c.X)
+		want := rb.GetFrozenSizeInBytes()
+		b1, err1 := rb.Freeze()
+		var wbuf bytes.Buffer
+		n3, err3 := rb.WriteFrozenTo(&wbuf)
+		extra := []int{0, 1, 31, 4096}[c.V%4]
+		b2 := make([]byte, int(want)+extra)
+		for i := range b2 {
+			b2[i] = 0xEE
+		}
+		n2, err2 := rb.FreezeTo(b2)
+		agree := err1 == nil && err2 == nil && err3 == nil && bytes.Equal(b1, wbuf.Bytes()) && n2 <= len(b2) && bytes.Equal(b1, b2[:minInt(n2, len(b2))])
+		tailOK := true
+		for i := n2; i < len(b2) && err2 == nil; i++ {
+			if b2[i] != 0xEE {
+				tailOK = false
+			}
+		}
+		// too-small buffers: error and nothing written
+		smallOK := true
+		for _, sz := range []int{0, int(want) - 1, int(want) / 2} {
+			if sz < 0 || uint64(sz) >= want {
+				continue
+			}
+			sb := make([]byte, sz)
+			for i := range sb {
+				sb[i] = 0xEE
+			}
+			_, err := rb.FreezeTo(sb)
+			if err == nil {
+				smallOK = false
+			}
+			for _, x := range sb {
+				if x != 0xEE {
+					smallOK = false
+				}
+			}
+		}
+		f, set := parseFrozen(b1)
+		if len(f.Ch) > 2*repChunkCap {
+			f.Trunc = len(f.Ch)
+			f.Ch = append(append([]FChunk{}, f.Ch[:repChunkCap]...), f.Ch[len(f.Ch)-repChunkCap:]...)
+		}
+		ev.Arr = e.projArr(set, ev)
+		kinds := []int{}
+		for i, ch := range view32(rb, nil).Chunks {
+			if i < 2*repChunkCap {
+				kinds = append(kinds, ch.T)
+			}
+		}
+		ev.Ret = map[string]any{"f": f, "agree": agree, "tail": tailOK, "small": smallOK, "gsz": numFromU64(want),
+			"n1": numFromU64(uint64(len(b1))), "n2": numFromU64(uint64(n2)), "n3": numFromU64(uint64(n3)),
+			"err": err1 != nil || err2 != nil || err3 != nil, "kinds": kinds}
+		e.obs = append(e.obs, c.X)
+		return true
+	case "FrozenRT": // Freeze x, view the bytes in dst (C13 + C08)
+		rb := e.bm(c.X)
+		b, err := rb.Freeze()
+		if err != nil {
+			ev.Skip = true
+			return true
+		}
+		cb := e.registerBuf(alignedCopy(b, 32))
+		nb := roaring.New()
+		var verr error
+		if c.V == 1 {
+			verr = nb.MustFrozenView(cb.bytes)
+		} else {
+			verr = nb.FrozenView(cb.bytes)
+		}
+		ev.Ret = map[string]any{"err": verr != nil}
+		if verr == nil {
+			e.setSlot(c.Dst, nb, true)
+		}
+		*targets = []int{c.Dst, c.X}
+		return true
+	case "LoadLegal": // read direction of C06: bytes built by OUR encoder under policy -> library
+		set := u.setOf(c.As)
+		pol := EncPolicy{Cookie: c.V & 1, Runs: (c.V >> 1) & 3, Gran: (c.V >> 3) & 3}
+		b := encodeLegal(set, pol, e.rng)
+		// our own parser must agree with our own encoder
+		pf, pset := parsePortable(b)
+		ev.Aux = pf.OK && pf.End == len(b) && pset.equal(set)
+		nb := roaring.New()
+		entry := c.W % 5
+		var lerr error
+		taint := false
+		switch entry {
+		case 0:
+			_, lerr = nb.ReadFrom(bytes.NewReader(b))
+		case 1:
+			_, lerr = nb.ReadFrom(&chunkReader{b: b, sizes: chunkings[c.J%len(chunkings)]})
+		case 2:
+			cb := e.registerBuf(b)
+			_, lerr = nb.FromBuffer(cb.bytes)
+			taint = true
+		case 3:
+			cb := e.registerBuf(b)
+			_, lerr = nb.FromUnsafeBytes(cb.bytes)
+			taint = true
+		case 4:
+			lerr = nb.UnmarshalBinary(b)
+		}
+		ev.Ret = map[string]any{"err": lerr != nil, "entry": entry, "cookie": pf.Cookie, "n": pf.N}
+		if lerr == nil {
+			e.setSlot(c.Dst, nb, taint)
+		} else {
+			e.setSlot(c.Dst, roaring.New(), false)
+		}
+		*targets = []int{c.Dst}
+		return true
+	case "Scribble": // overwrite every caller buffer no live un-detached bitmap depends on
+		// A buffer is scribbled only when every slot that was loaded from caller memory has been detached.
+		for s := 1; s <= NSLOT; s++ {
+			if e.taint[s] {
+				ev.Skip = true
+				return true
+			}
+		}
+		for _, b := range e.bufs {
+			if !b.dead {
+				for i := range b.bytes {
+					b.bytes[i] = byte(0xFF ^ i)
+				}
+				b.dead = true
+			}
+		}
+		return true
+	case "DetachAll": // CloneCopyOnWriteContainers on every slot (so that Scribble becomes legal)
+		for s := 1; s <= NSLOT; s++ {
+			e.slots[s].CloneCopyOnWriteContainers()
+			e.taint[s] = false
+		}
+		*targets = []int{1, 2, 3, 4, 5, 6}
+		return true
+	}
+	return false
+}
+
+func minInt(a, b int) int {
+	if a < b {
+		return a
+	}
+	return b
+}
+
+// alignedCopy returns a copy of b whose first byte is aligned to `al` bytes.
+func alignedCopy(b []byte, al int) []byte {
+	buf := make([]byte, len(b)+al)
+	off := 0
+	for ; off < al; off++ {
+		if uintptrOf(buf[off:])%uintptr(al) == 0 {
+			break
+		}
+	}
+	out := buf[off : off+len(b) : off+len(b)]
+	copy(out, b)
+	return out
+}
 
 func extraCommand(name string, args []string) bool { return false }
